@@ -31,6 +31,7 @@ type world struct {
 	handles  []handle
 	notes    []string
 	size     int
+	nextPrep func(*callScript) // applied to the next doExec call script, then cleared
 }
 
 type handle struct {
@@ -189,7 +190,9 @@ func (w *world) doExec(i int, q AQ, r AR, knownIDs map[int]known) (COb, execResu
 		return COb{}, execResult{}, err
 	}
 	sid := w.serial
-	er := w.inst(i).exec(cq, r, sid)
+	prep := w.nextPrep
+	w.nextPrep = nil
+	er := w.inst(i).execCS(cq, r, sid, prep)
 	o := observe(er, 5)
 	w.checkClock()
 	ao := toAbs(w.m, o)
@@ -202,7 +205,11 @@ func (w *world) doExec(i int, q AQ, r AR, knownIDs map[int]known) (COb, execResu
 	}
 	if o.Res == "hit" {
 		if kn, ok := knownIDs[o.Sid]; ok {
-			ao.Cont = contOf(er.resp, kn.cq, kn.ar, o.Sid)
+			served := er.resp
+			if er.cs.servedCopy != nil {
+				served = er.cs.servedCopy
+			}
+			ao.Cont = contOf(served, kn.cq, kn.ar, o.Sid)
 		}
 		if o.HasOpt {
 			ao.Cont = "mut" // an OPT must never come out of the cache
@@ -225,6 +232,11 @@ func (w *world) doExec(i int, q AQ, r AR, knownIDs map[int]known) (COb, execResu
 func (w *world) doDump(i int, withAge bool, set bool) ([]byte, error) {
 	du := nowUnix()
 	code, body := w.inst(i).api("GET", "/dump", nil)
+	return w.dumpEvent(i, du, code, body, withAge, set)
+}
+
+// dumpEvent records a dump (from GET /dump or read from the dump file) as a trace event.
+func (w *world) dumpEvent(i int, du int64, code int, body []byte, withAge bool, set bool) ([]byte, error) {
 	w.checkClock()
 	var ents []*CachedEntry
 	if code == 200 {
